@@ -20,7 +20,7 @@ Per run:
      build / build-same / build-other / caller mutation / rebuild / execute, every earlier snapshot re-checked after each step, no gate
      object shared between two returned circuits or with module-level tables, data arguments not mutated.
 """
-STATIC = ["C20/Props", "C20/PropsAngles", "C20/PropsStore", "Base/TrigMat"]
+STATIC = ["C20/Props", "C20/PropsAngles", "C20/PropsStore", "C20/PropsDist", "Base/TrigMat"]
 import ast
 import hashlib
 import itertools
@@ -1077,6 +1077,10 @@ RULE = ("dtype x sparsity x sign matrix for every data encoder (float64 / int64 
 
 
 # ------------------------------------------------------------------ entangling_layer / phase_encoder / random gaussian loader
+OPTIONS_RULE = ("; options (round 5): QFT(n, accelerators=...) for n = 1..12 x 9 device dictionaries (refused, or gate list == Coq model qft_dist n and "
+                "operator == DFT), Circuit kwargs through every constructor, hamming_weight_encoder full_hwp x optimize_controls x phase_correction x "
+                "real/complex, argument forms of comp_basis_encoder / entangling_layer; representations: every data encoder x data pattern x "
+                "(float64, float32, int64, int32, int8, uint8, complex128, complex64, strided / reversed / Fortran-row views, read-only, list, tuple)")
 CONSTRUCTOR_RULE = ("; constructor histories: for every constructor (QFT, comp_basis, phase, unary tree/diagonal, unary random gaussian, binary "
                     "hyperspherical/hopf real+complex, hamming-weight both control settings real+complex, ghz, entangling_layer 8 architectures) "
                     "build / build-same / build-other-data / caller mutation (set_parameters, gate.parameters, add) / rebuild / execute with every "
@@ -1253,7 +1257,7 @@ def cap_findings(run, per_class=3):
 
     def find(key, what, replay=None, concrete=True):
         parts = key.split(":")
-        fam = ":".join(parts[:3] if parts[0] == "corr" else parts[:2])
+        fam = ":".join(parts[:3] if parts[0] in ("corr", "repr", "options") else parts[:2])
         count[fam] = count.get(fam, 0) + 1
         if count[fam] <= per_class:
             orig(key, what, replay, concrete)
@@ -1346,19 +1350,35 @@ def main(run):
     # the constructors are functions of their arguments: histories of build / mutate / rebuild / execute over every constructor
     from harness import c20_purity
     run.notes["constructor_histories"] = c20_purity.constructor_histories(run, random.Random(run.seed + 22), 250 if thorough else 80)
+    # round 5: rarely used options (QFT accelerators= / Circuit kwargs / hw option product / argument forms) and the same
+    # data in every representation (dtype, layout, container) for every encoder -- harness/c20_options.py
+    from harness import c20_options
+    c20_options.option_coverage(run)
+    run.notes["qft_options"] = c20_options.qft_options(run, random.Random(run.seed + 23), thorough)
+    run.notes["representation_matrix"] = c20_options.representation_matrix(run, random.Random(run.seed + 24))
+    run.notes["option_matrix"] = c20_options.option_matrix(run, random.Random(run.seed + 25))
+    names_d = vcore.props_theorems("C20/PropsDist.v")
+    ok_d, pa_d = vcore.static_assumptions("C20/PropsDist")
+    for nme in names_d:
+        run.oblige(nme, ok_d and nme in pa_d, "theorem (bounded)")
+    run.notes["print_assumptions_dist"] = pa_d
     names_s = vcore.props_theorems("C20/PropsStore.v")
     ok_s, pa_s = vcore.static_assumptions("C20/PropsStore")
     for nme in names_s:
         run.oblige(nme, ok_s and nme in pa_s, "theorem")
     run.notes["print_assumptions_store"] = pa_s
-    return run.finish(rule=RULE + CONSTRUCTOR_RULE)
+    return run.finish(rule=RULE + CONSTRUCTOR_RULE + OPTIONS_RULE)
 
 
 def replay(run, data):
     rp = data.get("replay", {})
     key = data.get("key", "")
     rng = random.Random(0)
-    if key.startswith("purity:"):
+    from harness import c20_options
+    if key.startswith(("qft:dft:distributed", "qft:distributed", "corr:qft:distributed", "repr:", "options:")) and \
+            c20_options.replay(run, key, data.get("what", ""), rp):
+        pass
+    elif key.startswith("purity:"):
         from harness import c20_purity
         c20_purity.replay_history(run, key, data.get("what", ""), rp)
     elif key.startswith("dtype:") and "encoder" in rp:
